@@ -1238,4 +1238,172 @@ theorem sqItems_noSub (env : Env) (its : List Item) (g : LGraph) (h : noSubI its
       | inSubq _ _ _ => simp [noSub] at h1
       | exist _ _ => simp [noSub] at h1
 
+theorem whereOK_func (n : String) (d : Bool) (as : List Expr) (ov : Option Over) :
+    whereOK (.func n d as ov) = noSub (.func n d as ov) := by
+  cases ov with
+  | none => simp only [whereOK, noSub]
+  | some o => cases o; simp only [whereOK, noSub]
+theorem whereOK_cast (e : Expr) (t : String) : whereOK (.cast e t) = noSub (.cast e t) := by simp only [whereOK, noSub]
+theorem whereOK_case (ws : List When) (els : Option Expr) : whereOK (.case ws els) = noSub (.case ws els) := by
+  cases els <;> simp only [whereOK, noSub]
+theorem whereOK_paren (e : Expr) : whereOK (.paren e) = noSub (.paren e) := by simp only [whereOK, noSub]
+
+/-! ## 5. the crawl `cd*` (`list_join_clause`) only finds what the specification has -/
+
+theorem dsElem_table_nil (env : Env) (parts : List String) (a : Option String) (k : Bool) :
+    dsElem env [] (.table parts a k) = [(mkTable env parts none).d] := by
+  cases parts with
+  | nil => simp [dsElem]
+  | cons n r =>
+    cases r with
+    | nil => simp [dsElem]
+    | cons _ _ => simp [dsElem]
+
+/-- the dataset a FROM element denotes, when no CTE is in scope: the table itself (a derived table is a SubQuery) -/
+theorem datasetOfElem_sub (env : Env) (g : LGraph) (hc : cteObjs g = []) (o : DObj) (ho : o.d.isDataset = true)
+    (e : FromElem) (hm : o ∈ datasetOfElem env g e) : o.d ∈ dsElem env [] e := by
+  cases e with
+  | table parts a k =>
+    rw [datasetOfElem_table env g hc] at hm
+    simp only [List.mem_singleton] at hm
+    rw [hm, dsElem_table_nil, mkTable_d]
+    exact List.mem_singleton.mpr rfl
+  | derived q a k =>
+    simp only [datasetOfElem, List.mem_singleton] at hm
+    rw [hm, mkSubq_isDataset] at ho
+    cases ho
+
+mutual
+theorem cdWhere_sub (env : Env) (g : LGraph) (hc : cteObjs g = []) (o : DObj) (ho : o.d.isDataset = true) :
+    (e : Expr) → whereOK e = true → o ∈ cdExpr env g e → o.d ∈ dsExpr env [] e
+  | .bin _ a b, h, hm => by
+    simp only [whereOK, Bool.and_eq_true] at h
+    simp only [cdExpr, List.mem_append] at hm
+    simp only [dsExpr, List.mem_append]
+    exact hm.imp (cdWhere_sub env g hc o ho a h.1) (cdWhere_sub env g hc o ho b h.2)
+  | .subq q, h, hm => by
+    simp only [whereOK] at h
+    simp only [cdExpr] at hm
+    simp only [dsExpr]
+    exact cdQuery_sub env g hc o ho q h hm
+  | .inSubq x _ q, h, hm => by
+    simp only [whereOK, Bool.and_eq_true] at h
+    simp only [cdExpr, cdExpr_noSub env g x h.1, List.nil_append] at hm
+    simp only [dsExpr, List.mem_append]
+    exact Or.inr (cdQuery_sub env g hc o ho q h.2 hm)
+  | .exist _ q, h, hm => by
+    simp only [whereOK] at h
+    simp only [cdExpr] at hm
+    simp only [dsExpr]
+    exact cdQuery_sub env g hc o ho q h hm
+  | .col _ _, _, hm => by simp [cdExpr] at hm
+  | .star _, _, hm => by simp [cdExpr] at hm
+  | .lit _, _, hm => by simp [cdExpr] at hm
+  | .func n d as ov, h, hm => by
+    rw [whereOK_func] at h
+    rw [cdExpr_noSub env g _ h] at hm; cases hm
+  | .cast e t, h, hm => by
+    rw [whereOK_cast] at h
+    rw [cdExpr_noSub env g _ h] at hm; cases hm
+  | .case ws els, h, hm => by
+    rw [whereOK_case] at h
+    rw [cdExpr_noSub env g _ h] at hm; cases hm
+  | .paren e, h, hm => by
+    rw [whereOK_paren] at h
+    rw [cdExpr_noSub env g _ h] at hm; cases hm
+theorem cdQuery_sub (env : Env) (g : LGraph) (hc : cteObjs g = []) (o : DObj) (ho : o.d.isDataset = true) :
+    (q : Query) → fragQ q = true → o ∈ cdQuery env g q → o.d ∈ dsQuery env [] q
+  | .select _ its frm none grp hav, h, hm => by
+    simp only [fragQ, Bool.and_eq_true] at h
+    obtain ⟨⟨⟨⟨hits, hfrm⟩, hwh⟩, hgrp⟩, hhav⟩ := h
+    cases hav with
+    | none =>
+      simp only [cdQuery, cdItems_noSub env g its hits, cdExpr_noSubL env g grp hgrp, List.nil_append, List.append_nil] at hm
+      simp only [dsQuery, List.mem_append]
+      exact Or.inl (Or.inl (Or.inl (Or.inl (cdFromExprs_sub env g hc o ho frm hfrm hm))))
+    | some e' =>
+      simp only [noSubOpt] at hhav
+      simp only [cdQuery, cdItems_noSub env g its hits, cdExpr_noSubL env g grp hgrp, cdExpr_noSub env g e' hhav,
+        List.nil_append, List.append_nil] at hm
+      simp only [dsQuery, List.mem_append]
+      exact Or.inl (Or.inl (Or.inl (Or.inl (cdFromExprs_sub env g hc o ho frm hfrm hm))))
+  | .select _ its frm (some e) grp hav, h, hm => by
+    simp only [fragQ, Bool.and_eq_true] at h
+    obtain ⟨⟨⟨⟨hits, hfrm⟩, hwh⟩, hgrp⟩, hhav⟩ := h
+    have hm' : o ∈ cdFromExprs env g frm ∨ o ∈ cdExpr env g e := by
+      cases hav with
+      | none =>
+        simpa only [cdQuery, cdItems_noSub env g its hits, cdExpr_noSubL env g grp hgrp, List.nil_append, List.append_nil,
+          List.mem_append] using hm
+      | some e' =>
+        simp only [noSubOpt] at hhav
+        simpa only [cdQuery, cdItems_noSub env g its hits, cdExpr_noSubL env g grp hgrp, cdExpr_noSub env g e' hhav,
+          List.nil_append, List.append_nil, List.mem_append] using hm
+    simp only [dsQuery, dsOpt, List.mem_append]
+    rcases hm' with hm | hm
+    · exact Or.inl (Or.inl (Or.inl (Or.inl (cdFromExprs_sub env g hc o ho frm hfrm hm))))
+    · exact Or.inl (Or.inl (Or.inr (cdWhere_sub env g hc o ho e hwh hm)))
+  | .setop first rest, h, hm => by
+    simp only [fragQ, Bool.and_eq_true] at h
+    simp only [cdQuery, List.mem_append] at hm
+    simp only [dsQuery, List.mem_append]
+    exact hm.imp (cdBranch_sub env g hc o ho first h.1) (cdOpBranches_sub env g hc o ho rest h.2)
+  | .withq _ _, h, _ => by simp [fragQ] at h
+theorem cdBranch_sub (env : Env) (g : LGraph) (hc : cteObjs g = []) (o : DObj) (ho : o.d.isDataset = true) :
+    (b : Branch) → fragB b = true → o ∈ cdBranch env g b → o.d ∈ dsBranch env [] b
+  | .mk q _, h, hm => by
+    simp only [fragB, Bool.and_eq_true] at h
+    simp only [cdBranch] at hm
+    simp only [dsBranch]
+    exact cdQuery_sub env g hc o ho q h.2 hm
+theorem cdOpBranches_sub (env : Env) (g : LGraph) (hc : cteObjs g = []) (o : DObj) (ho : o.d.isDataset = true) :
+    (l : List OpBranch) → fragOBs l = true → o ∈ cdOpBranches env g l → o.d ∈ dsOpBranches env [] l
+  | [], _, hm => by simp [cdOpBranches] at hm
+  | .mk _ b :: r, h, hm => by
+    simp only [fragOBs, Bool.and_eq_true] at h
+    simp only [cdOpBranches, List.mem_append] at hm
+    simp only [dsOpBranches, List.mem_append]
+    exact hm.imp (cdBranch_sub env g hc o ho b h.1) (cdOpBranches_sub env g hc o ho r h.2)
+theorem cdElem_sub (env : Env) (g : LGraph) (hc : cteObjs g = []) (o : DObj) (ho : o.d.isDataset = true) :
+    (e : FromElem) → fragE e = true → o ∈ cdElem env g e → o.d ∈ dsElem env [] e
+  | .table _ _ _, _, hm => by simp [cdElem] at hm
+  | .derived q _ _, h, hm => by
+    simp only [fragE] at h
+    simp only [cdElem] at hm
+    simp only [dsElem]
+    exact cdQuery_sub env g hc o ho q h hm
+theorem cdJoins_sub (env : Env) (g : LGraph) (hc : cteObjs g = []) (o : DObj) (ho : o.d.isDataset = true) :
+    (l : List Join) → fragJs l = true → o ∈ cdJoins env g l → o.d ∈ dsJoins env [] l
+  | [], _, hm => by simp [cdJoins] at hm
+  | .mk _ e on _ :: r, h, hm => by
+    simp only [fragJs, Bool.and_eq_true] at h
+    have hm' : (o ∈ datasetOfElem env g e ∨ o ∈ cdElem env g e) ∨ o ∈ cdJoins env g r := by
+      cases on with
+      | none => simpa only [cdJoins, List.append_nil, List.mem_append] using hm
+      | some c =>
+        have hc' := h.1.2
+        simp only [noSubOpt] at hc'
+        simpa only [cdJoins, cdExpr_noSub env g c hc', List.append_nil, List.mem_append] using hm
+    simp only [dsJoins, List.mem_append]
+    rcases hm' with (hm | hm) | hm
+    · exact Or.inl (Or.inl (datasetOfElem_sub env g hc o ho e hm))
+    · exact Or.inl (Or.inl (cdElem_sub env g hc o ho e h.1.1 hm))
+    · exact Or.inr (cdJoins_sub env g hc o ho r h.2 hm)
+theorem cdFromExpr_sub (env : Env) (g : LGraph) (hc : cteObjs g = []) (o : DObj) (ho : o.d.isDataset = true) :
+    (f : FromExpr) → fragF f = true → o ∈ cdFromExpr env g f → o.d ∈ dsFromExpr env [] f
+  | .mk base js, h, hm => by
+    simp only [fragF, Bool.and_eq_true] at h
+    simp only [cdFromExpr, List.mem_append] at hm
+    simp only [dsFromExpr, List.mem_append]
+    exact hm.imp (cdElem_sub env g hc o ho base h.1) (cdJoins_sub env g hc o ho js h.2)
+theorem cdFromExprs_sub (env : Env) (g : LGraph) (hc : cteObjs g = []) (o : DObj) (ho : o.d.isDataset = true) :
+    (l : List FromExpr) → fragFs l = true → o ∈ cdFromExprs env g l → o.d ∈ dsFromExprs env [] l
+  | [], _, hm => by simp [cdFromExprs] at hm
+  | f :: r, h, hm => by
+    simp only [fragFs, Bool.and_eq_true] at h
+    simp only [cdFromExprs, List.mem_append] at hm
+    simp only [dsFromExprs, List.mem_append]
+    exact hm.imp (cdFromExpr_sub env g hc o ho f h.1) (cdFromExprs_sub env g hc o ho r h.2)
+end
+
 end SqlLineage.Proofs.ReadsExact
